@@ -72,6 +72,27 @@ def near_points(node, env, rng, out, fwd=lambda p: p):
         pass
 
 
+def far_tols(node):
+    """the tolerances the library's boundary tests use for ONE primitive far from the origin, as (atol, rtol, batol) strings:
+    barycentric: max(1e-5, 2.5e-7 * largest |coordinate| * L / |det|), L = larger 1-norm of the two edge vectors;
+    ball:        atol + rtol*r = max(1e-8 + 1e-5 r, 2.5e-7 * (largest |centre coordinate| + r))"""
+    prim = node.kids[0] if node.kind == "bdry" else node
+    atol, rtol, batol = Fr(ATOL), Fr(RTOL), Fr(BATOL)
+    if prim.kind in ("par", "tri"):
+        o, c1, c2 = [pf.eval({}) for pf in prim.pfs]
+        d1 = [c1[0] - o[0], c1[1] - o[1]]
+        d2 = [c2[0] - o[0], c2[1] - o[1]]
+        largest = max(abs(v_) for p_ in (o, c1, c2) for v_ in p_)
+        det = abs(d1[0] * d2[1] - d1[1] * d2[0])
+        L = max(abs(d1[0]) + abs(d1[1]), abs(d2[0]) + abs(d2[1]))
+        batol = max(batol, Fr(25, 10 ** 8) * largest * L / det)
+    elif prim.kind in ("circle", "sphere"):
+        ctr, (r,) = prim.pfs[0].eval({}), prim.pfs[1].eval({})
+        largest = max(abs(v_) for v_ in ctr) + abs(r)
+        atol = max(atol + rtol * abs(r), Fr(25, 10 ** 8) * largest) - rtol * abs(r)
+    return [common.q(atol), common.q(rtol), common.q(batol)]
+
+
 def scale_tree(node, sc):
     """multiply every coordinate-valued parameter of the expression by `sc` (not the entries of a rotation matrix)"""
     for i, pf in enumerate(node.pfs):
@@ -84,7 +105,7 @@ def scale_tree(node, sc):
 
 def make_case(ctx, idx):
     rng = ctx.rng
-    mode = rng.choice(["solid2", "solid2", "solid2", "solid1", "solid3", "prod", "prod", "bdry", "bdry", "bdry-adjacent", "bdry-contained"])
+    mode = rng.choice(["solid2", "solid2", "solid2", "solid1", "solid3", "prod", "prod", "bdry", "bdry", "bdry-adjacent", "bdry-contained", "far"])
     params = rng.choice([[], ["t"], ["t", "D"], ["t", "D"]])
     g = Gen(rng, params=params, p_default=0.5)   # parameter functions with a defaulted argument: supplied values must win
     depth = rng.choice([1, 2, 2, 3, 3]) if ctx.quick else rng.choice([1, 2, 3, 3, 4])
@@ -102,6 +123,20 @@ def make_case(ctx, idx):
         ga = Gen(rng, params=params + (["s"] if rng.random() < 0.6 else []), allow_translate=False, allow_rotate=False, p_default=0.5)
         a = ga.solid(min(depth, 2), "x")
         node = geomgen.Node("prod", None, [], [a, b])
+    elif mode == "far":
+        # ONE primitive (or its boundary) that is small compared to its distance from the origin: size 2^-k, offset up to 2^10.
+        # The float32 rounding error of a point is ~6e-8 * |coordinate|; the boundary tests of the library use a tolerance
+        # relative to the coordinates there (/repo 20d0b69, 214537b) — the model gets that effective tolerance (far_tols).
+        params = []
+        g = Gen(rng, params=[])
+        prim = g.prim(rng.choice(["x", "x", "x", "z", "y"]))
+        scale_tree(prim, Fr(2) ** rng.choice([-8, -6, -4, -2, 0]))
+        off = [Fr(rng.choice([0, 1, -3, 30, 60, -500, 1000, 2000])) for _ in range(3)]
+        for i_, pf in enumerate(prim.pfs):
+            if prim.kind in ("circle", "sphere") and i_ == 1:
+                continue            # the radius is not a position
+            pf.terms = [geomgen.c(geomgen.pt_eval(t, {}) + off[j]) for j, t in enumerate(pf.terms)]
+        node = geomgen.Node("bdry", None, [], [prim]) if rng.random() < 0.6 else prim
     elif mode == "bdry-adjacent":
         # union of two parallelograms that share an edge (an L-shape / strip built from blocks)
         params = []
@@ -148,6 +183,11 @@ def make_case(ctx, idx):
         g.allow_translate = False
         inner = g.solid(min(depth, 2), rng.choice(["x", "x", "y", "z"]))
         node = geomgen.Node("bdry", None, [], [inner])
+    if mode == "far":
+        mode = "bdry" if node.kind == "bdry" else {"x": "solid2", "y": "solid1", "z": "solid3"}[node.vars()[0]]
+        far_case = True
+    else:
+        far_case = False
     # a quarter of the plain expressions live at another length scale (all coordinates times a power of two: sizes 1e-3 … 1e3);
     # parameter values stay in [0, 1], rotation matrices are not scaled
     sc = Fr(1)
@@ -164,6 +204,13 @@ def make_case(ctx, idx):
         for var in node.vars():
             d = geomgen.DIM[var]
             pt[var] = [Fr(rng.randint(-5 * 32, 5 * 32), 32) * sc for _ in range(d)]
+        if far_case:
+            # queries in a box of three times the primitive's size around it (random points of the plane would all be far outside)
+            prim_ = node.kids[0] if node.kind == "bdry" else node
+            pos = [pf_.eval({}) for i2, pf_ in enumerate(prim_.pfs) if not (prim_.kind in ("circle", "sphere") and i2 == 1)]
+            ctr = [sum(p_[j] for p_ in pos) / len(pos) for j in range(len(pos[0]))]
+            ext = max([abs(p_[j] - ctr[j]) for p_ in pos for j in range(len(ctr))] + ([prim_.pfs[1].eval({})[0]] if prim_.kind in ("circle", "sphere") else []))
+            pt = {node.vars()[0]: [f32(ctr[j] + ext * Fr(rng.randint(-96, 96), 32)) for j in range(len(ctr))]}
         rows.append((pt, env))
     ring_rows = []
     if mode == "bdry-adjacent":
@@ -197,7 +244,7 @@ def make_case(ctx, idx):
     if shared_cut:
         o_, c1_, c2_ = [p_.eval({}) for p_ in node.kids[0].kids[0].pfs]
         axis_par = all(0 in (c_[0] - o_[0], c_[1] - o_[1]) for c_ in (c1_, c2_))
-    return dict(id=idx, mode=mode, scale=str(sc), shared_cut=shared_cut, axis_parallel=axis_par, adjacent=(node.kind == "bdry" and node.kids[0].kind == "union" and all(k.kind == "par" for k in node.kids[0].kids)
+    return dict(id=idx, mode=mode, scale=str(sc), tol=(far_tols(node) if far_case else None), shared_cut=shared_cut, axis_parallel=axis_par, adjacent=(node.kind == "bdry" and node.kids[0].kind == "union" and all(k.kind == "par" for k in node.kids[0].kids)
                                         and not node.free_vars() and bool(ring_rows)), ring_rows=ring_rows, dom=node.describe(), params=params,
                 rows=[({k_: [str(a) for a in v_] for k_, v_ in pt.items()}, {k_: [str(a) for a in v_] for k_, v_ in env.items()})
                       for pt, env in rows])
@@ -260,7 +307,8 @@ def driver_lines(case):
     for pt, env in case["rows"]:
         pe = {k: [Fr(a) for a in v] for k, v in pt.items()}
         ee = {k: [Fr(a) for a in v] for k, v in env.items()}
-        lines.append(f"contains {ATOL} {RTOL} {BATOL} {dt} {env_tokens(pe)} {env_tokens(ee)}")
+        a_, r_, b_ = case.get("tol") or (ATOL, RTOL, BATOL)
+        lines.append(f"contains {a_} {r_} {b_} {dt} {env_tokens(pe)} {env_tokens(ee)}")
     return lines
 
 
@@ -450,6 +498,8 @@ def interior_acceptance_all(cases, results, rep):
     for cs, res in zip(cases, results):
         if cs["mode"] != "bdry" or "bools" not in res:
             continue
+        if cs.get("tol"):
+            continue    # far-from-origin primitives: the probe radius and the margin are not scaled to them (judged by the margin rule)
         node = geomgen.from_json(cs["dom"])
         if node.vars() != ["x"]:
             continue
@@ -605,6 +655,8 @@ def run(ctx, rep, cases=None):
         rep.count("mode:" + cs["mode"])
         if cs.get("scale", "1") != "1":
             rep.count("length-scale:" + cs["scale"])
+        if cs.get("tol"):
+            rep.count("far-from-origin primitive" + (" (tolerance relative to the coordinates in force)" if cs["tol"] != [ATOL, RTOL, BATOL] else ""))
         if '"default ' in json.dumps(cs["dom"]):
             rep.count("parameter-function-with-defaulted-argument")
         if len(node.vars()) > 1 and cs.get("id", 0) % 2 == 1:
